@@ -1219,14 +1219,21 @@ func TestC11(t *testing.T) {
 	r.Rule("real ProposalProcessors + DefaultProposalProcessor over a recording stub BlockWriter; 20 signed proposals (heights 1..5 x rounds 0..1 x 2 variants, 0..2 operations); " +
 		"programs of 2..14 steps {Process(proposal | undeliverable fact, context live/cancelled/cancelled inside the writer, wait or not), " +
 		"Save(majority ACCEPT voteproof for a proposal with new block = its manifest | another hash | another proposal's manifest), Cancel} on 1..4 goroutines, " +
-		"writers that fail/pause in Manifest/Save; judged at every stub writer Save call. " +
-		"non-trivial: a Save whose new block mismatches, or two matching Saves for one height, or Cancel and Save on different goroutines; distinct by (lanes, steps, writer behaviours)")
+		"writers that fail/pause in Manifest/Save; 4 of 10 programs end with a queued phase whose schedule the harness owns: Process(holder) is kept running " +
+		"(its writer waits inside Manifest on a channel, so the call keeps the processors' lock), 2..6 Save/Process/Cancel calls for the holder's height " +
+		"(holder's and other proposals of that height, matching and mismatching voteproofs) are issued one per goroutine in the drawn order, each confirmed parked on the " +
+		"processors' lock (goroutine dump) before the next is issued, then the holder is released and the calls run in queue order; " +
+		"judged at every stub writer Save call and at the errors returned by ProposalProcessors.Save. " +
+		"non-trivial: a Save whose new block mismatches, or two matching Saves for one height, or Cancel and Save on different goroutines, or >= 2 calls queued behind a running Process; " +
+		"distinct by (lanes, steps, queue, writer behaviours)")
 	r.Floor(100)
 	r.Assume(
 		"Save is called like voteproofHandler.saveBlock does: with a majority ACCEPT voteproof and its majority proposal fact hash; the voteproof's point is the voted proposal's point",
 		"a block counts as saved when the block writer's Save returned without error; the manifest/fact conditions are checked on every writer Save call",
 		"two saves are ordered only when one ended before the other began (stub sequence numbers); overlapping saves are only compared for equal height",
-		"goroutine interleavings are sampled (gates inside the stub writer with a bounded grace), not enumerated",
+		"goroutine interleavings of the free-running lanes are sampled (gates inside the stub writer with a bounded grace), not enumerated",
+		"ProposalProcessors.Save returning a nil error tells its caller (voteproofHandler.saveBlock) that the block of the voteproof's height is saved: two nil returns for one height, or a nil return for a height below one whose Save had already returned nil, are counted as two blocks for one height / a block below a saved height",
+		"queued phase: sync.Mutex wakes parked waiters first-in first-out when nobody else competes for the lock, so calls confirmed parked one after the other run in that order after the release; whether a call is parked is read from runtime.Stack (state sync.Mutex.Lock/sync.RWMutex.Lock below a ProposalProcessors method); a 2 s grace bounds that wait and only affects the schedule (class queue-order-unconfirmed), never the verdict",
 	)
 
 	w := c11GetWorld()
